@@ -306,6 +306,18 @@ def check(ctx):
     ctx.need(not extra, 'senders without a firmware layout entry (extend oracles/firmware_layout.py): %s' % extra)
     ctx.inst('R2b', MODULES[0], 'inventory', not missing, 'oracle entries without a sender in the code: %s' % missing)
 
+    # ---- R1 (negotiated protocol version): the version every layout switch reads is negotiated anew for every connection -----
+    PSV = m.cls(FW.PLT, 'PlatformService')
+    fpi = PSV.method('fetch_platform_informations')
+    gp = cfg_of(fpi)
+    rst = [n for n in gp.nodes if n.kind == 'stmt' and isinstance(n.ast, ast.Assign) and norm(n.ast.targets[0]) in ('self._protocolVersion', 'self._protocol_version')]
+    req = gp.find(lambda q: method_call(q, '_request_protocol_version') or method_call(q, 'send_packet'))
+    ok = len(rst) == 1 and isinstance(fold_in(fpi, rst[0].ast.value), int) and fold_in(fpi, rst[0].ast.value) < 0 and not gp.fact_keys_at(rst[0]) and \
+        ('n', rst[0].id) in (gp.dom().get(('n', gp.exit.id)) or ()) and bool(req) and all(gp.dominates(rst[0], n) for n, _ in req)
+    ctx.inst('R1', fpi, 'version-negotiated-per-connection', ok,
+             'fetch_platform_informations forgets the protocol version (sets it negative) on every path before asking the device again: the next device may be on '
+             'the other side of a legacy/current layout switch')
+
     # ---- R3: refusals -------------------------------------------------------------
     ss = m.func(FW.CMD, 'Commander.send_setpoint')
     g = cfg_of(ss)
